@@ -9,7 +9,10 @@ use crate::util::{self, Out, Rng};
 use crate::Args;
 
 pub mod addr;
+pub mod config;
+pub mod inotify;
 pub mod life;
+pub mod readbuf;
 pub mod smoke;
 
 /// What a case reports when it ends.
@@ -87,6 +90,13 @@ pub fn run_comp(a: &Args, comp: &mut dyn Comp) -> i32 {
         }
     }
 
+    // The op script is also written incrementally (flushed before each op is
+    // executed): if the implementation crashes the process, the last case in
+    // this file is the replay.
+    use std::io::Write as _;
+    let name0 = comp.name();
+    let mut live_ops = std::fs::File::create(format!("{}/{}.ops", a.out, name0)).expect("create ops file");
+
     let mut rng = Rng::new(a.seed ^ 0xa10a10a10);
     let n = if a.replay.is_some() { scripts.len() as u64 } else { a.cases };
     for i in 0..n {
@@ -99,6 +109,8 @@ pub fn run_comp(a: &Args, comp: &mut dyn Comp) -> i32 {
             comp.gen_header(&mut crng, i, &a.tier)
         };
         out.op(&header);
+        let _ = writeln!(live_ops, "{header}");
+        let _ = live_ops.flush();
         script.push(header.clone());
         let mut case = comp.begin(&header);
         let mut k = 1usize;
@@ -115,6 +127,8 @@ pub fn run_comp(a: &Args, comp: &mut dyn Comp) -> i32 {
             };
             let Some(op) = op else { break };
             out.op(&op);
+            let _ = writeln!(live_ops, "{op}");
+            let _ = live_ops.flush();
             let kind = op.split(' ').nth(1).unwrap_or("?").to_string();
             *dist.entry(kind).or_insert(0) += 1;
             script.push(op.clone());
@@ -150,6 +164,7 @@ pub fn run_comp(a: &Args, comp: &mut dyn Comp) -> i32 {
     }
 
     let name = comp.name();
+    drop(live_ops);
     std::fs::write(format!("{}/{}.ops", a.out, name), &out.ops).unwrap();
     std::fs::write(format!("{}/{}.impl", a.out, name), &out.out).unwrap();
 
@@ -219,6 +234,9 @@ pub fn run(a: &Args) -> i32 {
         "smoke" => smoke::run(a),
         "addr" => run_comp(a, &mut addr::AddrComp),
         "life" => run_comp(a, &mut life::LifeComp),
+        "readbuf" => run_comp(a, &mut readbuf::ReadBufComp),
+        "config" => run_comp(a, &mut config::ConfigComp),
+        "inotify" => run_comp(a, &mut inotify::InotifyComp),
         other => {
             eprintln!("unknown component {other}");
             2
